@@ -1,5 +1,5 @@
 /* lhenum — small-scope exhaustive monitor for linkhash (C06).
- * usage: lhenum <table size> <hash kind 0 identity|1 constant|2 last slot|3 pairs> <max len> <shard> <nshards>
+ * usage: lhenum <table size> <hash kind 0 identity|1 constant|2 last slot|3 pairs|4 three+neighbour|5 adjacent pairs|6 wide (differs above bit 31)> <max len> <shard> <nshards>
  * Enumerates ALL operation sequences of length <= max len over {add, delete, lookup} x 4 keys on
  * lh_table_new(size, ...) with a caller-supplied hash; "add" is what json_object_object_add_ex does (lookup, then
  * set value or insert).  After EVERY step: lookup of each key, length, lh_foreach order and values, and the
@@ -30,7 +30,8 @@ static unsigned long my_hash(const void *k)
 	case 2: return (unsigned long)-1;          /* h % size lands wherever ULONG_MAX % size does; probes wrap around */
 	case 3: return (unsigned long)(id / 2) * 3; /* two pairs of colliding keys */
 	case 4: return id == 2 ? 1 : 0;              /* three keys share a home slot, the fourth lives in the NEXT slot */
-	default: return (unsigned long)(id & 1);     /* two keys per home slot, homes adjacent */
+	case 5: return (unsigned long)(id & 1);      /* two keys per home slot, homes adjacent */
+	default: return ((unsigned long)(id + 1) << 32) | 5ul; /* full-width hashes that differ only above bit 31 (a caller-supplied 64-bit hash, pointer hashes) */
 	}
 }
 static int my_equal(const void *a, const void *b) { return strcmp((const char *)a, (const char *)b) == 0; }
